@@ -3,6 +3,7 @@
 # patch and passes without it, and that the package's existing tests still pass with the patch.
 seed="$1"; pkg="$2"; run="$3"
 export GOFLAGS=-mod=mod GOPROXY=off GOSUMDB=off GOTOOLCHAIN=local
+mkdir -p /tmp/wt
 wt=/tmp/wt/confirm.$$
 git -C /repo worktree add -q --detach $wt HEAD || exit 2
 cd $wt
